@@ -26,7 +26,7 @@ DEFAULT_PROFILE = dict(
     subscript_whole_array_results=True, raise_=True, nested_calls=True,
     persistent_arrays=True, name_pool="plain", zero_trip=True, negative_consts=True,
     dead_code=True, cond_in_call_args=True, bare_power=True, ne_operator=True,
-    pow_of_pow=True, loop_bound_vars=True, fresh_names=False, lookups=False, complex_vars=False, assign_all_state=False, time_advance=True, force_phases=None, extra_kinds=(), zero_arg_calls=True, builtin_set=None, yield_uvec_only=False, matmul_only=False, yield_call_free=False, minmax_loop_counter=True, builtin_kwargs=True,
+    pow_of_pow=True, loop_bound_vars=True, fresh_names=False, lookups=False, complex_vars=False, assign_all_state=False, time_advance=True, force_phases=None, extra_kinds=(), zero_arg_calls=True, builtin_set=None, yield_uvec_only=False, matmul_only=False, yield_call_free=False, minmax_loop_counter=True, builtin_kwargs=True, uvfn_boost=False,
     real_temps=None, uvec_temps=None, arr_temps=None, flag_temps=None, int_temps=None,
 )
 
@@ -161,7 +161,7 @@ class Gen:
             return None
         t, v = self.choice(opts)
         # n - 1, n + 1 forms
-        if t[0] == "var" and self.chance(25):
+        if t[0] == "var" and self.chance(45):
             d = self.choice([1, -1])
             if (lo is None or v + d >= lo) and (hi is None or v + d <= hi):
                 return ["sum", t, C(d)], v + d
@@ -223,6 +223,8 @@ class Gen:
         uv = self.names_of(UVEC)
         if uv and self.p["array_builtins"]:
             opts.append("uvfn")
+            if self.p["uvfn_boost"]:
+                opts += ["uvfn"] * 4
         if self.p["calls"] and self.p["nested_calls"]:
             opts.append("call")
         k = self.choice(opts)
@@ -250,7 +252,12 @@ class Gen:
             return [self.choice(["min", "max"])] + args
         if k == "if":
             self.features.add("ifexpr")
-            return ["if", self.bool_expr(d), self.real_expr(d), self.real_expr(d)]
+            then = self.real_expr(d)
+            if self.chance(30):
+                # a conditional directly in the THEN branch (printing it needs parentheses)
+                then = ["if", self.bool_expr(max(d - 1, 0)), self.real_leaf(), self.real_leaf()]
+                self.features.add("if_in_then")
+            return ["if", self.bool_expr(d), then, self.real_expr(d)]
         if k == "sub":
             a = self.choice(iarrs)
             return ["sub", V(a), [self.index_expr(self.defined[a][1])]]
@@ -294,7 +301,15 @@ class Gen:
         if k == "flag":
             return V(self.choice(flags))
         if k in ("and", "or"):
-            return [k, self.bool_expr(d), self.bool_expr(d)]
+            first = self.bool_expr(d)
+            if self.chance(40):
+                # the other operator directly underneath (precedence of the printed form matters)
+                other = "or" if k == "and" else "and"
+                first = [other, self.bool_expr(max(d - 1, 0)), self.bool_expr(max(d - 1, 0))]
+            ch = [first, self.bool_expr(d)]
+            if self.chance(50):
+                ch.reverse()
+            return [k] + ch
         if k == "not":
             return ["not", self.bool_expr(d)]
         if k == "isnan":
@@ -311,9 +326,16 @@ class Gen:
     def cplx_expr(self, depth):
         if depth <= 0:
             return self.cplx_leaf()
-        k = self.choice(["leaf", "sum", "sum", "prod", "prod"])
+        k = self.choice(["leaf", "sum", "sum", "prod", "prod", "quot"])
         if k == "leaf":
             return self.cplx_leaf()
+        if k == "quot":
+            # real over complex, complex over real, complex over complex (constants: never zero)
+            num = self.cplx_expr(depth - 1) if self.chance(50) else self.real_expr(min(depth - 1, 1))
+            den = C(["complex", self.choice([1, 2]), self.choice([1, -1, 2])]) if self.chance(70) else C(self.choice(DIVISORS))
+            if den[1] in DIVISORS or isinstance(den[1], (int, float)):
+                num = self.cplx_expr(depth - 1)
+            return ["quot", num, den]
         ch = [self.cplx_expr(depth - 1)]
         for _ in range(self.draw(st.integers(1, 2))):
             ch.append(self.cplx_expr(depth - 1) if self.chance(30) else self.real_expr(min(depth - 1, 1)))
@@ -506,7 +528,7 @@ class Gen:
             return C(v)
         return lv, lo, hi, [lv, bound(lo), bound(hi)]
 
-    def op_new_array(self, depth):
+    def op_new_array(self, depth, force_len=None):
         if not self.p["arrays"]:
             return []
         pers = [n for n in P_ARR if isinstance(self.types.get(n), list) or False]
@@ -514,7 +536,11 @@ class Gen:
         if not cands:
             return []
         name = self.choice(cands)
-        r = self.int_expr(1, 4)
+        r = self.int_expr(1, 6) if self.chance(40) else self.int_expr(1, 4)
+        if self.p["matmul"] and self.chance(20):
+            r = (C(6), 6)           # 2x3 / 3x2 matrices for transpose
+        if force_len is not None:
+            r = (C(force_len), force_len)
         if r is None:
             return []
         nt, n = r
@@ -620,11 +646,30 @@ class Gen:
             self.features.add("alias")
             return [["assign", name, None, V(src), []]]
         if k == "transpose":
-            cols = self.choice([c for c in range(1, n + 1) if n % c == 0])
+            pre = []
+            if self.chance(50) and n not in (4, 6):
+                # make sure genuinely rectangular matrices get transposed: take (or first create) an
+                # array whose length has a non-trivial divisor
+                rect = [a for a in arrs if self.defined[a][1] in (4, 6)]
+                if rect:
+                    src = self.choice(rect)
+                else:
+                    pre = self.op_new_array(0, force_len=6)
+                    if not pre:
+                        return []
+                    src = pre[0][1][0]
+                n = self.defined[src][1]
+                cands = [x for x in self.ARR_TEMPS if x not in self.types or self.types[x] == ["arr", n]]
+                if not cands:
+                    return pre
+                name = self.choice(cands)
+            divs = [c for c in range(1, n + 1) if n % c == 0]
+            inner = [c for c in divs if c not in (1, n)]
+            cols = self.choice(inner) if inner and self.chance(70) else self.choice(divs)
             self.define(name, ["arr", n])
             self.features.add("matmul")
             c_ = self.bcall("<builtin>transpose", [V(src), C(cols)])
-            return [["call", [name], c_[1], c_[2], c_[3]]]
+            return pre + [["call", [name], c_[1], c_[2], c_[3]]] + self.observe_array(name, n)
         # matmul: a is (ra x ca), b is (ca x cb)
         same = [a for a in arrs if self.defined[a][1] == n]
         other = self.choice(same)
@@ -637,7 +682,23 @@ class Gen:
         self.define(name, ["arr", n])
         self.features.add("matmul")
         c_ = self.bcall("<builtin>matmul", [V(src), V(other), C(c), C(c)])
-        return [["call", [name], c_[1], c_[2], c_[3]]]
+        return [["call", [name], c_[1], c_[2], c_[3]]] + self.observe_array(name, n)
+
+    def observe_array(self, name, n):
+        """Make an element of a freshly computed array observable: add it to a persistent real
+        (or a temporary one) right away."""
+        if not self.chance(60):
+            return []
+        pers = [x for x in P_REAL if self.defined.get(x) == REAL]
+        tgt = self.choice(pers) if pers else self.fresh_or_existing(REAL, self.REAL_TEMPS)
+        if tgt is None:
+            return []
+        idx = C(self.draw(st.integers(0, n - 1)))
+        rhs = ["sub", V(name), [idx]]
+        if tgt in self.defined:
+            rhs = normal(["sum", V(tgt), rhs])
+        self.define(tgt, REAL)
+        return [["assign", tgt, None, rhs, []]]
 
     def op_call_stmt(self):
         if not self.p["calls"]:
@@ -749,6 +810,40 @@ class Gen:
         self.features.add("fresh")
         return [["fresh", prefix, self.real_expr(1)]]
 
+    def op_utemp_in_loop(self, depth):
+        """A user-type temporary consumed inside a counted loop, optionally under a guard (memory
+        management of the Fortran target: where is the temporary released?)."""
+        uv = self.names_of(UVEC)
+        arrs = self.names_of("arr_indexable")
+        if not uv or not self.p["loops"]:
+            return []
+        ops = []
+        if not arrs:
+            ops += self.op_new_array(depth)
+            arrs = self.names_of("arr_indexable")
+            if not arrs:
+                return ops
+        cands = [n for n in self.UVEC_TEMPS if self.types.get(n, UVEC) == UVEC]
+        if not cands:
+            return ops
+        tmp = self.choice(cands)
+        ops.append(["assign", tmp, None, normal(["prod", self.coef(0), V(self.choice(uv))]), []])
+        self.define(tmp, UVEC)
+        a = self.choice(arrs)
+        n = self.defined[a][1]
+        f = self.choice(self.allowed(["<builtin>len", "<builtin>norm_1"]))
+        lv = self.choice(LOOP_VARS)
+        loop = ["assign", a, [V(lv)], normal(["sum", self.bcall(f, [V(tmp)]), V(lv)]), [[lv, C(0), C(n)]]]
+        self.features.add("loop")
+        self.features.add("utemp_in_loop")
+        if self.p["ifs"] and depth < self.p["max_depth"] and self.chance(60):
+            cond = self.bool_expr(1)
+            self.features.add("if")
+            ops.append(["if", cond, [loop], None])
+        else:
+            ops.append(loop)
+        return ops
+
     def op_time_advance(self):
         return [["assign", "<t>", None, normal(["sum", V("<t>"), V("<dt>")]), []]]
 
@@ -791,7 +886,9 @@ class Gen:
             if self.p["complex_vars"]:
                 kinds += ["cplx", "cplx", "cplx", "fromcplx"]
             k = self.choice(kinds)
-            if k == "fresh":
+            if k == "utemploop":
+                new = self.op_utemp_in_loop(depth)
+            elif k == "fresh":
                 new = self.op_fresh()
             elif k == "cplx":
                 new = self.op_assign_cplx()
@@ -974,7 +1071,7 @@ def methods(draw, profile=None):
                 extra.append(["assign", full, None, normal(["sum", V(full), V("<dt>")]), []])
         phases[-1]["body"] = phases[-1]["body"] + extra
     return {"phases": phases, "initial": names[0], "state": state,
-            "t0": draw(st.sampled_from([0, 0, 1, 0.5])), "dt0": draw(st.sampled_from([1, 0.5, 0.25, 2])),
+            "t0": draw(st.sampled_from([0, 0, 1, 0.5, -1, -0.5, -2])), "dt0": draw(st.sampled_from([1, 0.5, 0.25, 2])),
             "ulen": g.ulen, "features": sorted(g.features)}
 
 
